@@ -259,8 +259,8 @@ theorem mainLoop_np (P : Problem α) (pr : Params α) (stop : Nat → Bool) (oot
     is the generated chain evaluated with the counter
     `npRun max_no_progress 0 0 [x̂₀ == x̂₋₁, x̂₁ == x̂₀, …, x̂ₖ == x̂ₖ₋₁]` — the flags between the proximal
     points reported by *consecutive progress callbacks* (`x̂₋₁` = the content of `curr->x̂` after the
-    initialisation).  Hence, for `max_no_progress ≥ 1`, `NoProgress` is returned only after more than
-    `max_no_progress` consecutive trailing iterations whose reported `x̂` are all equal. -/
+    initialisation).  Hence `NoProgress` is returned only after more than `max_no_progress` consecutive
+    trailing iterations whose reported `x̂` are all equal (every `max_no_progress`, 0 included). -/
 theorem fista_no_progress_counter (P : Problem α) (pr : Params α) (stop : Nat → Bool) (oot : Bool)
     (x0 y Sig errz0 gV : Vec α) (nan inf : α)
     (h : EndsAt P pr stop oot x0 y Sig errz0 (run P pr stop oot x0 y Sig errz0 gV nan inf)) :
@@ -274,7 +274,7 @@ theorem fista_no_progress_counter (P : Problem α) (pr : Params α) (stop : Nat 
       (xhatFlags (initIterate P pr x0 gV nan).1.xhat
         (run P pr stop oot x0 y Sig errz0 gV nan inf).callbacks).length =
         (run P pr stop oot x0 y Sig errz0 gV nan inf).stats.iterations + 1 ∧
-      (1 ≤ pr.maxNoProgress → (run P pr stop oot x0 y Sig errz0 gV nan inf).stats.status = .NoProgress →
+      ((run P pr stop oot x0 y Sig errz0 gV nan inf).stats.status = .NoProgress →
         pr.maxNoProgress < ((xhatFlags (initIterate P pr x0 gV nan).1.xhat
           (run P pr stop oot x0 y Sig errz0 gV nan inf).callbacks).reverse.takeWhile (· = true)).length) := by
   unfold run at h ⊢
@@ -302,10 +302,10 @@ theorem fista_no_progress_counter (P : Problem α) (pr : Params α) (stop : Nat 
     obtain ⟨tick, h1, h2⟩ := mainLoop_np P pr stop oot x0 y Sig errz0 (initIterate P pr x0 gV nan).1.xhat
       (pr.maxIter + 2) s hinit (by rw [hk.1]; omega) (by omega)
     refine ⟨tick, h1, h2, ?_⟩
-    intro hM hnp
+    intro hnp
     rw [hnp] at h1
     have hgt := C06.noProgress_only_if _ _ _ _ _ _ _ _ h1.symm
-    have hle := C06.no_progress_counts_consecutive_guarded pr.maxNoProgress hM
+    have hle := C06.no_progress_counts_consecutive pr.maxNoProgress
       (xhatFlags (initIterate P pr x0 gV nan).1.xhat
         (mainLoop P pr stop oot x0 y Sig errz0 (pr.maxIter + 2) s).callbacks) 0
     omega
@@ -350,7 +350,7 @@ example : exPrNp.maxNoProgress <
   have hE := (fista_run_cases exP2 exPrNp (fun _ => false) false [2] [1] [2] [0] [] 0 0).resolve_left
     (fun h => absurd h.2.2.2.2.2.2 (by decide +kernel))
   obtain ⟨_, _, _, h3⟩ := fista_no_progress_counter exP2 exPrNp (fun _ => false) false [2] [1] [2] [0] [] 0 0 hE
-  exact h3 (by decide) (by decide +kernel)
+  exact h3 (by decide +kernel)
 
 /-- two iterations, then `MaxIter`. -/
 example : (run exP2 { exPr with maxIter := 2, tolerance := 1/1000 }
